@@ -1753,9 +1753,7 @@ class LinearOperator(object):
         if not logdet:
             if inv_quad_rhs is None:
                 raise RuntimeError("Either `inv_quad_rhs` or `logdet` must be specifed.")
-            return self.inv_quad(inv_quad_rhs, reduce_inv_quad=reduce_inv_quad), torch.zeros(
-                [], dtype=self.dtype, device=self.device
-            )
+            return self.inv_quad(inv_quad_rhs, reduce_inv_quad=reduce_inv_quad), None
 
         # Default: use modified batch conjugate gradients to compute these terms
         # See NeurIPS 2018 paper: https://arxiv.org/abs/1809.11165
@@ -1818,7 +1816,9 @@ class LinearOperator(object):
         logdet_term = pinvk_logdet
         logdet_term = logdet_term + logdet_p
 
-        if inv_quad_term.numel() and reduce_inv_quad:
+        if inv_quad_rhs is None:
+            inv_quad_term = None
+        elif inv_quad_term.numel() and reduce_inv_quad:
             inv_quad_term = inv_quad_term.sum(-1)
         return inv_quad_term, logdet_term
 
